@@ -242,3 +242,27 @@ for _pid, _mods in GEN_USERS.items():
     _c["technique"] = ("Lean 4 theorems about a hand-written model; model tied to /repo by differential correspondence (Go harness vs compiled Lean driver), "
                        "regenerated facts, and Lean definitions translated from the Go source of the pure helper functions on every run")
     _c["level_note"] += " The translator harness/cmd/translate (T1b: a fixed subset of Go - see its header) is trusted to render the syntax tree faithfully."
+
+# Small pieces of the library brought inside the model in session 3 (Model/Misc.lean, theorems
+# Props/CMisc.lean, correspondence suite `misc`): the Resources and WrapperCollection
+# collections, NewIdentifiers / IDs, Type.Equal / Copy / Fields, Error.Error() and the error
+# constructors, the Meta getters. Each group supports the property it is closest to.
+MISC = {
+    "C19": (["CM_resources_run", "CM_resources_refines", "CM_wrapCollection", "CM_wrapper_add_other_noop", "CM_wrapper_run",
+             "CM_wrapper_at_no_panic", "CM_wrapper_at_negative_panics", "CM_wrapper_refines"],
+            " The library's two other collections are modelled as well (Model/Misc.lean) and proved to refine a plain list: Resources (Len/At/Add, At out of range is nil) and WrapperCollection (Add keeps only wrappers, At is nil beyond the end and - as the code is written - panics on a negative index: CM_wrapper_at_negative_panics); suite `misc` runs random operation sequences on the real ones."),
+    "C18": (["CM_equal_iff", "CM_equal_refl", "CM_equal_symm", "CM_equal_trans", "CM_equal_perm", "CM_equal_ignores_newfunc",
+             "CM_equal_nil_vs_empty", "CM_copy_shape", "CM_equal_copy", "CM_equal_copy_nil", "CM_copy_idem", "CM_fields_copy",
+             "CM_fields_sorted_perm", "CM_fields_perm"],
+            " Type.Copy, Type.Equal and Type.Fields are modelled as values too (Model/Misc.lean, with the nil/empty-map distinction reflect.DeepEqual sees): a copy has the source's name, attributes, relationships and NewFunc and never a nil map (CM_copy_shape), Copy is idempotent, Equal is an equivalence insensitive to map order and to NewFunc (CM_equal_*), a type equals its copy exactly when it has no nil map (CM_equal_copy), Fields is the sorted list of field names and the same for a copy (CM_fields_*); suite `misc` compares all of it with the real code."),
+    "C02": (["CM_identifiers_ids", "CM_identifiers_types", "CM_identifiers_nonnil", "CM_err_table", "CM_err_status", "CM_err_title",
+             "CM_error_json_members", "CM_err_json", "CM_err_source_meta", "CM_error_string", "CM_err_error_string",
+             "CM_meta_has", "CM_meta_getInt", "CM_meta_getBool", "CM_meta_absent", "CM_meta_getTime", "CM_meta_getString"],
+            " The identifier helpers, the error constructors, Error.Error() and the Meta getters are modelled (Model/Misc.lean): IDs(NewIdentifiers(t, ids)) = ids with every identifier of type t (CM_identifiers_*); each of the 28 error constructors yields a status between 400 and 599 that Error() reads back, a title (NewErrBadRequest excepted: it takes its title from the caller), and a JSON object with exactly its non-empty members (CM_err_*, CM_error_json_members, CM_error_string); the Meta getters return the stored value of the asked Go type or the zero value (CM_meta_*); suite `misc` compares every constructor and getter with the real code."),
+}
+for _pid, (_ths, _txt) in MISC.items():
+    _c = PROPS[_pid]
+    _c["modules"] = list(_c.get("modules", [_pid])) + ["CMisc"]
+    _c["theorems"] = list(_c["theorems"]) + _ths
+    _c["suites"] = list(_c["suites"]) + [("misc", 3000, 40000)]
+    _c["level_text"] += _txt
